@@ -479,6 +479,7 @@ class Exec:
         self.db = db
         self.user_models = []       # [(compiled regex, fn)] consulted first, in order
         self._um_cache = {}
+        self.path_models = {}
         self.std = M
         self.intmode = intmode
         self.loop_bound = loop_bound
@@ -502,6 +503,10 @@ class Exec:
         self.callstack = []
         self.log = []           # harness-visible effect log
         self.syms = {}
+
+    def model_path(self, path, fn):
+        """model for the function with exactly this definition path (generic arguments stripped)"""
+        self.path_models[path] = fn
 
     def model(self, pattern, fn):
         self.user_models.append((re.compile(pattern), fn))
@@ -603,9 +608,20 @@ class Exec:
         """call a FnVal with evaluated args: user model > std model > real body"""
         self.stats.calls += 1
         name = fv.name
+        if self.path_models:
+            pm = self.path_models.get(self.std.strip_generics(name))
+            if pm is None and isinstance(fv.info, dict):
+                cn = canon((fv.info.get('resolved') or {}).get('cname'))
+                if cn: pm = self.path_models.get(self.std.strip_generics(cn))
+            if pm is not None:
+                r = pm(self, name, args)
+                if r is not NotImplemented:
+                    self.stats.models['path:' + self.std.strip_generics(name)] = 1
+                    return r
         ums = self._um_cache.get(name)
         if ums is None:
-            ums = [(rx, fn) for rx, fn in self.user_models if rx.fullmatch(name)]
+            cname = canon((fv.info.get('resolved') or {}).get('cname')) if isinstance(fv.info, dict) else None
+            ums = [(rx, fn) for rx, fn in self.user_models if rx.fullmatch(name) or (cname and rx.fullmatch(cname))]
             self._um_cache[name] = ums
         for rx, fn in ums:
             r = fn(self, name, args)
@@ -1147,10 +1163,12 @@ class Frame:
                     # "rust-call" ABI: the argument tuple is spread when the callee resolves to a closure body or a plain fn
                     res = f.info.get('resolved') or {}
                     if res.get('kind') == 'Item':
-                        if '{closure' in (res.get('name') or '') or isinstance(M_deref(args[0]), Agg) and M_deref(args[0]).kind == 'closure':
-                            args = [args[0]] + list(args[1].fields)
-                        else:
-                            args = list(args[1].fields)
+                        rname = ex.std.strip_generics(res.get('name') or '')
+                        if rname.endswith('}') and '{closure#' in rname.rsplit('::', 1)[-1]:
+                            args = [args[0]] + list(args[1].fields)        # closure body: (self, spread args)
+                        elif not rname.endswith(('::call', '::call_once', '::call_mut')):
+                            args = list(args[1].fields)                    # plain fn item called through the Fn traits
+                        # otherwise: an `impl Fn* for X` method, which takes (self, tuple) as written
                 if ex.trace_calls:
                     print('  ' * ex.depth + f'call {getattr(f, "name", f)}')
                 try:
@@ -1197,6 +1215,12 @@ class Frame:
         if isinstance(v, Uninit):
             return
         ex.call_key(info['key'], [ref], info['name'])
+
+
+def canon(s):
+    """canonical instance name: definition paths, with core/alloc spelled std"""
+    if not s: return None
+    return re.sub(r'\b(core|alloc)::', 'std::', s.split(' - shim')[0])
 
 
 def M_deref(v):
